@@ -638,7 +638,14 @@ impl World {
         quiesce().await;
         let mut tc = self.this_conn.clone();
         let conn = self.conns.get_mut(&k).unwrap();
-        let sent = conn.drain(&mut tc).await;
+        let mut sent = conn.drain(&mut tc).await;
+        {
+            // replies to calls are produced concurrently by forwarder tasks: list them last, by pid
+            let (mut replies, rest): (Vec<String>, Vec<String>) = sent.into_iter().partition(|f| f.starts_with("reply:"));
+            replies.sort_by_key(|f| f["reply:".len()..].parse::<u64>().unwrap_or(0));
+            sent = rest;
+            sent.extend(replies);
+        }
         if self.this_conn.is_none() {
             self.this_conn = tc;
         }
